@@ -21,7 +21,9 @@ def run(tier, replay=None):
                            styles=("unit", "two", "small", "wide", "dyadic"), big=True)
         cases, meta = {}, {}
         for cid, c in base.items():
-            for k in ([1, 2, 3] if not cid.startswith("x") else [1, 2]):
+            # k beyond log2 n, beyond the girth and beyond n are valid parameters too (the spanner is then a forest-like
+            # subgraph whose shortest cycle has more than 2k edges, or the whole graph minus nothing)
+            for k in ([1, 2, 3, 4, r.choice([5, 6, 7]), r.choice([8, 11, 16, c[0] + 1])] if not cid.startswith("x") else [1, 2, r.choice([3, 4, 5])]):
                 if not cid.startswith("x") and r.random() < .4: continue
                 cases["%s-k%d" % (cid, k)] = c; meta["%s-k%d" % (cid, k)] = ("-", k)
     rc, out, err = run_kind(binary, "spanner", cases, meta, lambda m: [m[1]])
@@ -33,7 +35,7 @@ def run(tier, replay=None):
     verdicts = run_driver(out) if lean_ok else []
     oks, diffs, viols = parse_driver(verdicts)
     res.coverage.update({"evaluations": len(cases), "distinct_nontrivial": distinct_nontrivial(cases),
-        "rule": "graphs as in C16 (many equal weights: unit / {1,2} / {1,2,3} styles) x k in {1,2,3}; non-trivial = at least 2 edges; distinct by weighted graph",
+        "rule": "graphs as in C16 (many equal weights: unit / {1,2} / {1,2,3} styles) x k in {1,2,3,4, one of 5-7, one of 8/11/16/n+1}; non-trivial = at least 2 edges; distinct by weighted graph",
         "traces_validated_against_impl": len(oks), "dropped_edges_total": sum(int(w[6]) for w in oks), "retained_edges_total": sum(int(w[5]) for w in oks),
         "samples": [{"n": c[0], "edges": c[1], "k": meta[k][1]} for k, c in list(cases.items())[-2:]], **stats(cases)})
     if bad or viols:
